@@ -36,7 +36,66 @@ def one_run(world, verif_seed, tier, index, keep_log=False, props=None, config=N
     return plan, ctx
 
 
+def isolated(func, *args, timeout=CHUNK_TIMEOUT + 60):
+    """run func(*args) in a forked child and return its (picklable) result.  The caller's interpreter never
+    executes code of the library under test, so every child starts from the same clean state: a chunk of runs
+    is then one process history that a fresh interpreter can replay."""
+    import pickle
+    import select
+    r, w = os.pipe()
+    pid = os.fork()
+    if pid == 0:
+        try:
+            os.close(r)
+            try:
+                payload = pickle.dumps(("ok", func(*args)))
+            except BaseException:
+                payload = pickle.dumps(("err", traceback.format_exc()))
+            with os.fdopen(w, "wb") as f:
+                f.write(payload)
+        finally:
+            os._exit(0)
+    os.close(w)
+    chunks = []
+    deadline = time.time() + timeout
+    with os.fdopen(r, "rb") as f:
+        while True:
+            left = deadline - time.time()
+            if left <= 0:
+                try:
+                    os.kill(pid, 9)
+                except OSError:
+                    pass
+                os.waitpid(pid, 0)
+                raise HarnessError("isolated child timed out")
+            ready, _, _ = select.select([f], [], [], min(left, 5.0))
+            if not ready:
+                continue
+            b = f.read(1 << 20)
+            if not b:
+                break
+            chunks.append(b)
+    os.waitpid(pid, 0)
+    if not chunks:
+        raise HarnessError("isolated child died without a result")
+    kind, val = pickle.loads(b"".join(chunks))
+    if kind == "err":
+        raise HarnessError("isolated child raised: " + val)
+    return val
+
+
 def _chunk(args):
+    """one chunk of runs = one process history: executed in a forked child of the (clean) worker"""
+    try:
+        return isolated(_chunk_body, args)
+    except HarnessError as e:
+        world_name, verif_seed, tier, start, count, props, max_keep = args
+        return {"runs": 0, "steps": 0, "obs": 0, "vtime": 0.0, "faults": {}, "probes": {}, "sigs": set(), "distinct": set(),
+                "nontrivial": 0, "violations": [], "samples": [], "not_evaluated": {}, "harness": "chunk %d: %s" % (start, e),
+                "harness_count": 1, "viol_counts": {}, "configs": {}}
+
+
+def _chunk_body(args):
     world_name, verif_seed, tier, start, count, props, max_keep = args
     faulthandler.dump_traceback_later(CHUNK_TIMEOUT, exit=True)
     try:
@@ -96,6 +155,7 @@ def _chunk(args):
                     seen.add(key)
                     kept = sum(1 for (vv, _) in out["violations"] if (vv["property"], vv["class"]) == key)
                     if kept < max_keep:
+                        plan["chunk_start"] = start   # the runs executed before this one in the same process
                         out["violations"].append((v, plan))
         return out
     finally:
